@@ -402,9 +402,15 @@ func (r *report) finish(doReplay bool) int {
 
 	// 4. evidence
 	ev := r.evidence(validated, valMismatch, unconfirmed, unconfMsgs, newViol, len(knownSeen), internalErrs)
-	os.MkdirAll(filepath.Join(r.verif, "evidence"), 0o755)
+	// GOSYM_EVIDENCE_DIR redirects the evidence (runs against a modified
+	// tree must not overwrite the evidence of the unchanged one)
+	evDir := filepath.Join(r.verif, "evidence")
+	if d := os.Getenv("GOSYM_EVIDENCE_DIR"); d != "" {
+		evDir = d
+	}
+	os.MkdirAll(evDir, 0o755)
 	b, _ := json.MarshalIndent(ev, "", " ")
-	if err := os.WriteFile(filepath.Join(r.verif, "evidence", r.ID+".json"), b, 0o644); err != nil {
+	if err := os.WriteFile(filepath.Join(evDir, r.ID+".json"), b, 0o644); err != nil {
 		fmt.Fprintln(os.Stderr, "cannot write evidence:", err)
 	}
 
